@@ -17,7 +17,7 @@ def plan(tier):
     n = 400 if tier == 'quick' else 6000
     return dict(n_cases=n, shards=16, min_nontrivial=n // 3,
                 min_tags={'flow:x': n // 5, 'flow:y': n // 5, 'model:cpanel': n // 8, 'clause:mach': n // 20, 'clause:exchange': n // 20,
-                          'clause:cA': n // 10, 'gamma:nonzero': n // 10},
+                          'clause:cA': n // 10, 'gamma:nonzero': n // 10, 'clause:redefined': n // 6},
                 watchdog_s=1800 if tier == 'quick' else 10000,
                 rule='flat / w-only / cylindrical panels, random geometry, orders and laminates, edge flags random except that w is restrained '
                      '(translation flag 0) on the upstream and downstream edges of the flow; beta, gamma, aeromu of both signs over six decades '
@@ -170,6 +170,58 @@ def run_case(rng, tier, idx):
             c.expect('cA symmetric', np.array_equal(cA, cA.T))
             if num == 3:
                 c.expect('cA acts on out-of-plane amplitudes only', not cA[uv, :].any() and not cA[:, uv].any())
+    # the same object after a redefinition (an edge restraint of w, a dimension, the radius, the series orders reassigned): the
+    # matrix asked for now is the one of the panel as defined now
+    if not control and rng.random() < 0.35:
+        c.tag('clause:redefined')
+        d2 = dict(d); d2['flags'] = dict(d['flags'])
+        other = 'y' if flow == 'x' else 'x'
+        what = str(rng.choice(['wrot', 'wrot', 'wtrans_other', 'a', 'b', 'radius', 'swap_mn']))
+        if what == 'radius' and model != 'cpanel':
+            what = 'wrot'
+        if what == 'swap_mn' and d['m'] == d['n']:
+            what = 'a'
+        if what == 'wrot':
+            k_ = 'w%sr%s' % (str(rng.choice(['1', '2'])), str(rng.choice(['x', 'y'])))
+            d2['flags'][k_] = 0.0 if d['flags'].get(k_, 1.0) else 1.0
+            setattr(p, k_, d2['flags'][k_])
+        elif what == 'wtrans_other':
+            k_ = 'w%st%s' % (str(rng.choice(['1', '2'])), other)
+            d2['flags'][k_] = 0.0 if d['flags'].get(k_, 1.0) else 1.0
+            setattr(p, k_, d2['flags'][k_])
+        elif what in ('a', 'b'):
+            d2[what] = d[what] * float(rng.uniform(0.4, 2.5))
+            setattr(p, what, d2[what])
+        elif what == 'radius':
+            d2['r'] = d['r'] * float(rng.uniform(0.4, 2.5))
+            p.r = d2['r']
+        else:
+            d2['m'], d2['n'] = d['n'], d['m']
+            p.m, p.n = d2['m'], d2['n']
+        c.desc['redefinition'] = what
+        c.tag('redef:' + what)
+        p.beta = beta; p.gamma = gamma if gamma else None
+        try:
+            p.calc_k0(silent=True)
+            Ar = p.calc_kA(silent=True).toarray()
+        except Exception as e:
+            return c.reject('%s in calc_kA after redefinition: %s' % (type(e).__name__, str(e)[:100]))
+        q = gen.build_panel(d2)          # fresh object: carrier of the geometry for the basis only
+        q.calc_k0(silent=True)
+        nx2, ny2 = energy.exact_orders(q)
+        xs2, ys2, w2 = energy.gauss_grid(q, nx2, ny2)
+        W2, Wx2, Wy2 = w_basis(q, d2, xs2, ys2)
+        Kb2, Sb2 = energy.bilinear_form(W2, np.array([[beta]]), Wx2 if flow == 'x' else Wy2, w2)
+        Kg2, Sg2 = energy.quad_form(W2, np.array([[-gamma]]), w2)
+        ratio, ij = entrywise_excess(Ar, Kb2 + Kg2, Sb2 + Sg2, TOL)
+        mech = None
+        if ratio > 1 and gamma != 0:
+            Kg_sk = np.triu(Kg2) - np.triu(Kg2, 1).T
+            r2, _ = entrywise_excess(Ar, Kb2 + Kg_sk, Sb2 + Sg2, TOL)
+            if r2 <= 1:
+                mech = 'kA-gamma-part-skew-symmetrised'
+        c.judge('kA after a redefinition of the object equals the stated form for the panel as defined now', ratio * TOL, TOL, mechanism=mech,
+                data={'what': what})
     # flow along y equals flow along x on the axis-exchanged panel
     if flow == 'y' and model != 'cpanel' and rng.random() < 0.6:
         c.tag('clause:exchange')
